@@ -203,6 +203,7 @@ def run_plan(plan: dict) -> dict:
                 if key is not None and key in settings_pool:
                     settings = settings_pool[key]
                     C["probe.settings_reused"] += 1
+                    C["fault.settings_object_reused"] += 1
                 else:
                     settings = AlgorithmSettings(desc["algo"], **kw)
                     if key is not None:
@@ -266,6 +267,7 @@ def run_plan(plan: dict) -> dict:
                     continue
                 desc = history[op["which"] % len(history)]
                 C["probe.repeated_call"] += 1
+                C["fault.call_repeated_later_in_the_history"] += 1
             kk = desc["op"]
             kinds_seq.append(k if k != "repeat" else f"repeat_{kk}")
             where = f"op{oi}:{kinds_seq[-1]}:{desc.get('algo', '')}:after_{fresh_since}"
@@ -274,6 +276,7 @@ def run_plan(plan: dict) -> dict:
                     df0 = workload.make_cohort(Stream(plan["mseed"], "train", oi), kind=kind, n=5, n_features=nf, max_visits=3, id_prefix="r")
                     model.fit(workload.to_data(df0, kind), "mcmc_saem", n_iter=desc["n_iter"], seed=desc["aseed"], progress_bar=False)
                     fresh_since = "fit"
+                    C["fault.model_refitted_in_the_middle"] += 1
                     results.clear()   # parameters changed: earlier answers are no longer comparable
                     log.add("refit", oi)
                 except Exception as e:
